@@ -310,12 +310,26 @@ def large_cases(draw: Any) -> dict:
     n = draw(st.sampled_from([64, 127, 128, 129, 200, 255, 256, 257, 258,
                               300]))
     return {"n": n, "mod": draw(st.sampled_from([2, 7, 100, 251, 1000])),
+            # sparse: eight small entries per matrix, so that the bound (and
+            # with it the storage type) stays tiny although n is large
+            "sparse": draw(st.sampled_from([False, False, True])),
             "a": draw(st.integers(1, 50)), "b": draw(st.integers(1, 50)),
             "c": draw(st.integers(0, 9)), "seed": draw(st.integers(0, 999)),
             "via": draw(st.sampled_from(["constructor", "text"]))}
 
 
-def _large_matrix(n: int, a: int, b: int, c: int, mod: int) -> list:
+def _large_matrix(n: int, a: int, b: int, c: int, mod: int,
+                  sparse: bool = False) -> list:
+    if sparse:
+        m = [[0] * n for _ in range(n)]
+        for k in range(8):
+            i = (a * k + c + 7 * k * k) % n
+            j = (b * k + c + 1 + 3 * k) % n
+            if i != j:
+                m[i][j] = 1 + (k + mod) % 3
+        m[n - 1][(a + c) % (n - 1)] = 2  # the last index is in use
+        m[(b + c) % (n - 1)][n - 1] = 1
+        return m
     return [[0 if i == j else (a * i + b * j + c * i * j + a) % mod
              for j in range(n)] for i in range(n)]
 
@@ -327,8 +341,12 @@ def check_large(ctx: Ctx, case: dict) -> None:
     from moptipyapps.qap.instance import Instance
     from moptipyapps.qap.objective import QAPObjective
     n, mod = case["n"], case["mod"]
-    flows = _large_matrix(n, case["a"], case["b"], case["c"], mod)
+    sparse = bool(case.get("sparse"))
+    flows = _large_matrix(n, case["a"], case["b"], case["c"], mod, sparse)
     dists = _large_matrix(n, case["b"], case["c"] + 1, case["a"], mod)
+    if sparse:  # the same few positions, so that some products are not 0
+        dists = _large_matrix(n, case["a"], case["b"], case["c"], mod + 1,
+                              True)
     rlb, rub = o.qap_rearrangement_bounds(flows, dists)
     if case["via"] == "constructor":
         inst = sut(f"qap Instance() for n={n}", Instance,
@@ -355,14 +373,19 @@ def check_large(ctx: Ctx, case: dict) -> None:
     rnd = random.Random(case["seed"])  # noqa: S311 - part of the case
     p = list(range(n))
     rnd.shuffle(p)
-    x = _tour(p, "space")
-    got = sut("QAPObjective.evaluate", f.evaluate, x)
-    want = o.qap_value(flows, dists, p)
-    require(type(got) is int and got == want,
-            lambda: f"n={n}: evaluate={got!r}, double sum={want}")
-    require(lb <= got <= ub, lambda: f"n={n}: {got} outside [{lb}, {ub}]")
+    for q in (p, list(range(n)), list(range(n - 1, -1, -1))):
+        x = _tour(q, "space")
+        got = sut("QAPObjective.evaluate", f.evaluate, x)
+        want = o.qap_value(flows, dists, q)
+        require(type(got) is int and got == want,
+                lambda: f"n={n}: evaluate={got!r}, double sum={want} "
+                f"(storage {inst.flows.dtype.name}, permutation "
+                f"{'identity' if q[0] == 0 and q[-1] == n - 1 else q[:6]})")
+        require(lb <= got <= ub,
+                lambda: f"n={n}: {got} outside [{lb}, {ub}]")
     ctx.rec.case(case, nontrivial=True, labels=[
         f"large:n={n}", f"large:via={case['via']}",
+        "large:sparse" if sparse else "large:dense",
         f"large:dtype={inst.flows.dtype.name}"])
 
 
